@@ -15,6 +15,10 @@
 (*   cc: [props: <<<<name, repr>>>>, items: dict pairs]   authz, wwwauth: [none, type, token, params] *)
 (*   second layer (HeaderCodec2.tla): cachecontrol: [cls, assigns, props: <<<<attr, [k, t]>>>>, items]; basic: auth shape;  *)
 (*   authparam: auth shape + cls; options2231: options shape                                     *)
+(*   op = "hist": one step of a history with aliasing: v = the value, dumped = its text, parsed = the result of a parse  *)
+(*              call made after earlier parse results (or the value before dumping) were mutated; codecs cookie      *)
+(*              (<<<<key, value>>>>) and accept (<<<<range, q thousandths>>>>) occur only here.  Clauses HistRaised,      *)
+(*              HistIndependence.                                                                               *)
 (* Verdict clauses: OutOfDomain (driver error, never a verdict), Raised, RoundTrip,             *)
 (* RoundTrip/multi-range-order, RedumpRaised, NormalForm.  Drift records compare the real dump  *)
 (* text and the real parse with the transcription in HeaderCodec.tla (never a verdict).         *)
@@ -43,6 +47,9 @@ Dom(c, v) ==
     [] c = "basic" -> v.type = BASIC /\ DomAuth("authz", v)
     [] c = "authparam" -> v.cls \in {"authz", "wwwauth"} /\ ~(v.cls = "authz" /\ v.type = BASIC) /\ DomAuth(v.cls, v)
     [] c = "options2231" -> DomOptions(v)
+    [] c = "cookie" -> \A i \in 1..Len(v) : IsToken(v[i][1]) /\ v[i][2] # <<>> /\ \A k \in 1..Len(v[i][2]) : IsAlnum(v[i][2][k])
+    [] c = "accept" -> /\ \A i \in 1..Len(v) : v[i][2] \in 0..1000 /\ v[i][1] # <<>> /\ \A k \in 1..Len(v[i][1]) : v[i][1][k] \in TokenChars \cup {SLASH}
+                       /\ \A i \in 1..(Len(v) - 1) : v[i][2] > v[i + 1][2]
     [] c = "cachecontrol" -> IF v.cls = "resp" THEN DomAssigns(v.assigns) ELSE v.cls = "req" /\ v.assigns = <<>> /\ DomDict(v.items)
     [] OTHER -> FALSE
 
@@ -77,6 +84,14 @@ Verdict(r) ==
      ELSE IF ~(IF c \in {"cc", "cachecontrol"} THEN DomDict(r.parsed.items) ELSE Dom(c, r.parsed)) THEN "ok"
      ELSE IF r.err2 # "" THEN "RedumpRaised"
      ELSE IF ~Same(c, r.reparsed, r.parsed) THEN "NormalForm"
+     ELSE "ok"
+  ELSE IF r.op = "hist" THEN
+     \* one step of a history with aliasing (see harness/headercodec.py: run_history): v is the value the text `dumped`
+     \* was serialised from, parsed what THIS parse call returned after earlier results / the value were mutated
+     IF c = "range" /\ ~r.v.none /\ ~Ascending(r.v.ranges, ZERO) THEN "ok"        \* that class is judged by the rt lines
+     ELSE IF ~Dom(c, r.v) THEN "OutOfDomain"
+     ELSE IF r.err # "" THEN "HistRaised"
+     ELSE IF ~Same(c, r.parsed, r.v) THEN "HistIndependence"
      ELSE "ok"
   ELSE "ok"
 
